@@ -12,10 +12,18 @@
 
     composed from Model/ThriftBin.v (generated struct codecs: the args and result structs are ordinary
     generated structs), Model/Headers.v (header block codec) and Model/Receivers.v (registry).
+
+    The Thrift protocol is a parameter: a [codec] packs what the call uses of a TProtocol (message
+    header, TApplicationException, generated struct Write / Read, Skip of the argument struct).
+    [bin_codec] is TBinaryProtocol (strict write, non-strict read: the defaults), [compact_codec]
+    TCompactProtocol (thrift compact_protocol.go WriteMessageBegin / ReadMessageBegin: protocol id
+    0x82, version | type << 5, varint seqid, varint-length name; structs by Model/ThriftCompact.v).
+    Every function of the call exists once, as [<name>_c cd]; the unsuffixed names are the
+    TBinaryProtocol instances.
     Size limits are C12's (Model/SizeLimit.v) and are not repeated here: every buffer is unbounded.
     No proofs in this file. *)
 From Coq Require Import ZArith List Bool.
-From FV Require Import Base.Res Base.Bytes Base.GoSem Model.Headers Model.Receivers Model.ThriftBin.
+From FV Require Import Base.Res Base.Bytes Base.GoSem Model.Headers Model.Receivers Model.ThriftBin Model.ThriftCompact.
 Import ListNotations.
 Open Scope Z_scope.
 
@@ -155,6 +163,62 @@ Definition frame_of (payload : bytes) : bytes := be_n 4 (zlen payload) ++ payloa
 Definition unframe (frame : bytes) : res bytes :=
   if zlen frame <? 4 then Err EInvalidData else Ok (skipn 4 frame).
 
+(** * TCompactProtocol message header and TApplicationException *)
+
+(** WriteMessageBegin: writeByteDirect(0x82), writeByteDirect(VERSION & 0x1f | (byte(type) << 5) & 0xe0),
+    writeVarint32(seqid) (no zigzag), WriteString(name).  Only three bits of the type travel. *)
+Definition cmsg_begin_enc (nm : bytes) (typ seq : Z) : bytes :=
+  [130; 1 + 32 * (typ mod 8)] ++ varint32 seq ++ varint32 (zlen nm) ++ nm.
+
+(** ReadMessageBegin: protocol id, version (low five bits) and type (high three), readVarint32, ReadString *)
+Definition cmsg_begin_dec (b : bytes) : res (bytes * Z * Z * bytes) :=
+  do (pid, s1) <- c_byte (None, b);
+  if negb (pid =? 130) then Err EBadVersion else
+  do (vt, s2) <- c_byte s1;
+  if negb (vt mod 32 =? 1) then Err EBadVersion else
+  do (seq, s3) <- c_varint32 s2;
+  do (nm, s4) <- c_blob s3;
+  Ok (nm, (vt / 32) mod 8, seq, snd s4).
+
+(** tApplicationException.Write over TCompactProtocol: field 1 (binary, delta 1) if Error() is not
+    empty, field 2 (i32; delta 1 after field 1, else delta 2), STOP *)
+Definition cappexc_enc (kind : Z) (msg : bytes) : bytes :=
+  (match msg with [] => [] | _ => cfield_hdr 0 1 8 ++ varint32 (zlen msg) ++ msg end)
+  ++ cfield_hdr (match msg with [] => 0 | _ => 1 end) 2 5 ++ varint32 (zigzag32 kind) ++ [0].
+
+(** tApplicationException.Read: ReadStructBegin resets lastFieldId to 0 *)
+Fixpoint cappexc_dec_from (fuel : nat) (last : Z) (st : cst) (msg : bytes) (kind : Z) : res (bytes * Z * cst) :=
+  match fuel with
+  | O => OutOfFuel
+  | S f =>
+    do (h, s1) <- c_field_hdr last st;
+    let '(wt, id) := h in
+    if wt =? 0 then Ok (msg, kind, s1) else
+    if (id =? 1) && (wt =? 11) then do (s, s2) <- c_blob s1; cappexc_dec_from f id s2 s kind
+    else if (id =? 2) && (wt =? 8) then do (k, s2) <- c_i32 s1; cappexc_dec_from f id s2 msg k
+    else do s2 <- cskip_default f wt s1; cappexc_dec_from f id s2 msg kind
+  end.
+Definition cappexc_dec (fuel : nat) (b : bytes) : res (bytes * Z * bytes) :=
+  do (r, s) <- cappexc_dec_from fuel 0 (None, b) [] 0; Ok (r, snd s).
+
+(** * The protocol as the call uses it *)
+Record codec := mkCodec {
+  cd_msg_enc : bytes -> Z -> Z -> bytes;                      (* WriteMessageBegin name type seqid *)
+  cd_msg_dec : bytes -> res (bytes * Z * Z * bytes);          (* ReadMessageBegin: name, type, seqid, rest *)
+  cd_exc_enc : Z -> bytes -> bytes;                           (* tApplicationException.Write: type, Error() *)
+  cd_exc_dec : nat -> bytes -> res (bytes * Z * bytes);       (* tApplicationException.Read: message, type, rest *)
+  cd_write : env -> ty -> val -> res bytes;                   (* generated Write of a struct-like *)
+  cd_read : nat -> env -> ty -> bytes -> res (val * bytes);   (* generated Read *)
+  cd_skip_struct : nat -> bytes -> res bytes }.               (* iprot.Skip(STRUCT): rest *)
+
+Definition bin_codec : codec :=
+  mkCodec msg_begin_enc msg_begin_dec appexc_enc (fun fuel b => appexc_dec fuel b [] 0)
+          gwrite gread (fun fuel b => skip_default fuel 12 b).
+
+Definition compact_codec : codec :=
+  mkCodec cmsg_begin_enc cmsg_begin_dec cappexc_enc cappexc_dec
+          gcwrite gcread (fun fuel b => do s <- cskip_default fuel 12 (None, b); Ok (snd s)).
+
 (** * Handler outcomes and what the caller sees *)
 
 (** What the user's handler returns.  Values are Go values ([None] = nil pointer / nil slice /
@@ -179,6 +243,9 @@ Definition hlog := list (bytes * list (option val)).
 
 Definition slots_of (v : val) : list (option val) := match v with VStruct l => l | _ => [] end.
 
+Section WithCodec.
+Variable cd : codec.
+
 (** * Server *)
 
 (** FProtocol.ReadRequestHeader: the response headers the new context starts with:
@@ -188,8 +255,8 @@ Definition response_headers (hs : list hpair) (opid : bytes) : list hpair :=
   match lookup_default cid_hdr hs with [] => [] | cid => [(cid_hdr, cid)] end.
 
 (** writeException(oprot, headers, method, ex) on an unbounded buffer *)
-Definition exception_msg (rh : list hpair) (mname : bytes) (kind : Z) (text : bytes) : bytes :=
-  marshal rh ++ msg_begin_enc mname T_EXCEPTION 0 ++ appexc_enc kind text.
+Definition exception_msg_c (rh : list hpair) (mname : bytes) (kind : Z) (text : bytes) : bytes :=
+  marshal rh ++ cd_msg_enc cd mname T_EXCEPTION 0 ++ cd_exc_enc cd kind text.
 
 (** the throws clause as the generated type switch sees it: the first case whose Go type is the
     error's type (a typedef of an exception is an alias of it) *)
@@ -214,13 +281,14 @@ Definition result_slots (m : method) (succ : option val) (thrown : option (Z * v
     protocol ([None] = nothing).  SendError for a TApplicationException, a declared exception into
     its result field, any other error as INTERNAL_ERROR, a value into [success]; a oneway method
     answers only errors.  A result struct the generated Write refuses (a value outside the declared
-    type) leaves a truncated message in the buffer in the real code; the model reports that as [Err]. *)
-Definition respond (e : env) (rh : list hpair) (m : method) (o : houtcome) : res (option bytes) :=
-  let send_error kind text := Ok (Some (exception_msg rh (m_wire m) kind text)) in
+    type) is trapped by SendReply (trapError: the partial reply is dropped and INTERNAL_ERROR with the
+    Write error's text is sent; the text is not modelled); the model reports that as [Err]. *)
+Definition respond_c (e : env) (rh : list hpair) (m : method) (o : houtcome) : res (option bytes) :=
+  let send_error kind text := Ok (Some (exception_msg_c rh (m_wire m) kind text)) in
   let internal text := s_internal_error ++ m_wire m ++ s_colon ++ text in
   let reply slots :=
-      do b <- gwrite e (TRef (m_result m)) (VStruct slots);
-      Ok (Some (marshal rh ++ msg_begin_enc (m_wire m) T_REPLY 0 ++ b)) in
+      do b <- cd_write cd e (TRef (m_result m)) (VStruct slots);
+      Ok (Some (marshal rh ++ cd_msg_enc cd (m_wire m) T_REPLY 0 ++ b)) in
   match o with
   | HAppExc kind text => send_error kind text
   | HOther text => send_error AE_INTERNAL_ERROR (internal text)
@@ -236,39 +304,43 @@ Definition respond (e : env) (rh : list hpair) (m : method) (o : houtcome) : res
 
 (** <svc>F<Method>.Process(fctx, iprot, oprot): [input] is what follows the message header.
     Result: what was written to the output protocol and the handler log. *)
-Definition method_process (fuel : nat) (e : env) (h : handler) (rh : list hpair) (m : method) (input : bytes)
+Definition method_process_c (fuel : nat) (e : env) (h : handler) (rh : list hpair) (m : method) (input : bytes)
   : res (option bytes * hlog) :=
-  match gread fuel e (TRef (m_args m)) input with
+  match cd_read cd fuel e (TRef (m_args m)) input with
   | Err _ =>    (* SendError(PROTOCOL_ERROR, err.Error()); the text is not modelled *)
-    Ok (Some (exception_msg rh (m_wire m) AE_PROTOCOL_ERROR []), [])
+    Ok (Some (exception_msg_c rh (m_wire m) AE_PROTOCOL_ERROR []), [])
   | Panic p => Panic p
   | OutOfFuel => OutOfFuel
   | Ok (a, _) =>
     let args := slots_of a in
-    do o <- respond e rh m (h (m_wire m) args);
+    do o <- respond_c e rh m (h (m_wire m) args);
     Ok (o, [(m_wire m, args)])
   end.
 
 (** FBaseProcessor.Process(iprot, oprot) *)
-Definition server_process (fuel : nat) (e : env) (pm : list (bytes * method)) (h : handler) (input : bytes)
+Definition server_process_c (fuel : nat) (e : env) (pm : list (bytes * method)) (h : handler) (input : bytes)
   : res (option bytes * hlog) :=
   do (hs, opid, r1) <- read_request_header input;
   let rh := response_headers (to_map hs) opid in
-  do (nm, _, _, r2) <- msg_begin_dec r1;
+  do (nm, _, _, r2) <- cd_msg_dec cd r1;
   match plookup nm pm with
-  | Some m => method_process fuel e h rh m r2
+  | Some m => method_process_c fuel e h rh m r2
   | None =>
-    do _ <- skip_default fuel 12 r2;
-    Ok (Some (exception_msg rh nm AE_UNKNOWN_METHOD (s_unknown_function ++ nm)), [])
+    (* iprot.Skip(STRUCT): an error is logged and the caller answered all the same *)
+    match cd_skip_struct cd fuel r2 with
+    | Panic p => Panic p
+    | OutOfFuel => OutOfFuel
+    | Ok _ | Err _ => Ok (Some (exception_msg_c rh nm AE_UNKNOWN_METHOD (s_unknown_function ++ nm)), [])
+    end
   end.
 
 (** * Client *)
 
 (** the generated client method up to the transport: args struct from the parameters,
     prepareMessage (request headers, message header CALL / ONEWAY, args) *)
-Definition client_prepare (e : env) (m : method) (hdrs : list hpair) (args : list (option val)) : res bytes :=
-  do b <- gwrite e (TRef (m_args m)) (VStruct args);
-  Ok (marshal hdrs ++ msg_begin_enc (m_wire m) (if m_oneway m then T_ONEWAY else T_CALL) 0 ++ b).
+Definition client_prepare_c (e : env) (m : method) (hdrs : list hpair) (args : list (option val)) : res bytes :=
+  do b <- cd_write cd e (TRef (m_args m)) (VStruct args);
+  Ok (marshal hdrs ++ cd_msg_enc cd (m_wire m) (if m_oneway m then T_ONEWAY else T_CALL) 0 ++ b).
 
 (** Get<Field>() of an optional result field: the zero value when unset *)
 Definition get_success (e : env) (t : ty) (slot : option val) : option val :=
@@ -301,21 +373,21 @@ Definition cerr {A} (r : res A) : coutcome :=
   match r with Err e => CErr e | _ => CErr EOther end.
 
 (** FStandardClient.processReply + the tail of the generated client method *)
-Definition process_reply (fuel : nat) (e : env) (m : method) (reply : bytes) : coutcome :=
+Definition process_reply_c (fuel : nat) (e : env) (m : method) (reply : bytes) : coutcome :=
   match read_header reply with
   | Ok (_, r1) =>
-    match msg_begin_dec r1 with
+    match cd_msg_dec cd r1 with
     | Ok (nm, typ, _, r2) =>
       if negb (ThriftBin.bytes_eqb nm (m_wire m)) then CAppExc AE_WRONG_METHOD_NAME (m_wire m ++ s_wrong_method)
       else if typ =? T_EXCEPTION then
-        match appexc_dec fuel r2 [] 0 with
+        match cd_exc_dec cd fuel r2 with
         | Ok (text, kind, _) =>
           if kind =? AE_RESPONSE_TOO_LARGE then CTransport TE_RESPONSE_TOO_LARGE text else CAppExc kind text
         | r => cerr r
         end
       else if negb (typ =? T_REPLY) then CAppExc AE_INVALID_MESSAGE_TYPE (m_wire m ++ s_invalid_type)
       else
-        match gread fuel e (TRef (m_result m)) r2 with
+        match cd_read cd fuel e (TRef (m_result m)) r2 with
         | Ok (v, _) => result_outcome e m (slots_of v)
         | r => cerr r
         end
@@ -336,26 +408,37 @@ Definition reply_reaches_caller (registry : bool) (hdrs : list hpair) (reply : b
     end
   else true.
 
-Definition rpc_call (fuel : nat) (e : env) (pm : list (bytes * method)) (h : handler) (registry : bool)
+Definition rpc_call_c (fuel : nat) (e : env) (pm : list (bytes * method)) (h : handler) (registry : bool)
            (m : method) (hdrs : list hpair) (args : list (option val))
   : res (coutcome * hlog * option bytes) :=
-  match client_prepare e m hdrs args with
+  match client_prepare_c e m hdrs args with
   | Err err => Ok (CErr err, [], None)     (* the generated Write refuses the arguments: nothing is sent *)
   | Panic p => Panic p
   | OutOfFuel => OutOfFuel
   | Ok req =>
   do payload <- unframe (frame_of req);
-  do (out, log) <- server_process fuel e pm h payload;
+  do (out, log) <- server_process_c fuel e pm h payload;
   if m_oneway m then Ok (CRet None, log, out)
   else
     match out with
     | None => Ok (CTimeout, log, None)
     | Some reply =>
       if reply_reaches_caller registry hdrs reply
-      then Ok (process_reply fuel e m reply, log, out)
+      then Ok (process_reply_c fuel e m reply, log, out)
       else Ok (CTimeout, log, out)
     end
   end.
+
+End WithCodec.
+
+(** * The TBinaryProtocol instances (the names the binary theorems of Props/C03.v are stated with) *)
+Definition exception_msg := exception_msg_c bin_codec.
+Definition respond := respond_c bin_codec.
+Definition method_process := method_process_c bin_codec.
+Definition server_process := server_process_c bin_codec.
+Definition client_prepare := client_prepare_c bin_codec.
+Definition process_reply := process_reply_c bin_codec.
+Definition rpc_call := rpc_call_c bin_codec.
 
 (** the specification: what the caller of a two-way method should see for each handler outcome *)
 Definition map_outcome (e : env) (m : method) (o : houtcome) : coutcome :=
